@@ -56,8 +56,8 @@ func genFrame(r *hx.Rand, max, param int) codec.Frame {
 	if n < 1 {
 		n = ss
 	}
-	if n > 40000 {
-		n = (40000 / ss) * ss
+	if n > 12000 {
+		n = (12000 / ss) * ss
 	}
 	if n > 64*mp {
 		n = 64*mp - ss*r.Intn(2)
